@@ -19,7 +19,7 @@ def run_cases(chk, binp, cases, pf_ok, pf):
     kinds = {}
     leaks = {}
     for r in out:
-        for line in r["stats"]:
+        for line in r.get("stats") or []:
             name, new, red = line.split()
             new, red = int(new.split("=")[1]), int(red.split("=")[1])
             k = kinds.setdefault(name, [0, 0])
